@@ -123,9 +123,9 @@ def fault_value(ch, type_, key, kind, current):
                 n = dict(a.node)
                 n.update(a.extra or {})
                 if kind == "below_min" and "minimum" in n:
-                    return n["minimum"] - ch.choice([1, 100])
+                    return n["minimum"] - ch.choice([1, 100]) if not ch.chance(1, 8) else float("-inf")   # (ANGLE -1e999 loads as -inf)
                 if kind == "above_max" and "maximum" in n:
-                    return n["maximum"] + ch.choice([1, 1000])
+                    return n["maximum"] + ch.choice([1, 1000]) if not ch.chance(1, 8) else float("inf")
     if kind == "arity":
         cur = list(current) if isinstance(current, (list, tuple)) else [current]
         return cur + [cur[-1]] if ch.bool() or len(cur) < 2 else cur[:-1]
